@@ -149,8 +149,15 @@ func (x *Exec) walkWithInvariant(c *CallCtx, d collDesc, h int, fn *ssa.Function
 	}
 	x.bindState = st
 	x.bindFree(fn, free)
+	x.dynCtxArgs, x.dynCommits = nil, nil
 	ws, unk := x.fnWrites(fn, map[*ssa.Function]bool{})
 	x.havocGhost(st, ws, unk)
+	if len(x.dynCtxArgs) > 0 {
+		// the callback hands a context to code resolved only at run time: every handle may be written by it
+		for hh := range st.stores {
+			x.routerHavoc(st, hh)
+		}
+	}
 	i := e.FreshConst("wi", "Int")
 	st.Assume(and(app("<=", "0", i), app("<=", i, wn)))
 	for _, cl := range invs {
